@@ -666,6 +666,12 @@ func reasons(cs *Case) []reason {
 				return []reason{{"transport", "body:unreadable"}}
 			}
 		case "PROPFIND":
+			if len(cs.Body.Data) == 0 {
+				// Nothing arrived at all: what the server holds is an empty
+				// body, which is a valid (allprop) request without any side
+				// effect; whether the break-off is noticed is left open.
+				return nil
+			}
 			return []reason{{"transport", "body:unreadable"}}
 		}
 		return nil
